@@ -186,6 +186,34 @@ def gen_cases(tier, seed):
         if rng.random() < 0.4:
             fault_or_cancel(rng, spec['transfers'][0], spec)
         cases.append(spec)
+    # (J) failures whose cleanup fails too: the part request and the abort both fail (network gone); the destination write and the
+    # removal of the temporary file both fail
+    for i in range(60 if quick else 600):
+        vk = rng.choice(['upload', 'copy', 'download'])
+        if vk == 'upload':
+            t = {'kind': 'upload', 'src': rng.choice(['path', 'seekable', 'nonseekable']), 'size': 27}
+            f1, f2 = rng.choice([f't0/s3:UploadPart:{rng.choice([1, 2, 3])}#0', 't0/s3:CompleteMultipartUpload#0']), 't0/s3:AbortMultipartUpload#0'
+        elif vk == 'copy':
+            t = {'kind': 'copy', 'size': 27}
+            f1, f2 = rng.choice([f't0/s3:UploadPartCopy:{rng.choice([1, 2, 3])}#0', 't0/s3:CompleteMultipartUpload#0']), 't0/s3:AbortMultipartUpload#0'
+        else:
+            t = {'kind': 'download', 'dst': 'path', 'size': rng.choice([7, 27])}
+            f1, f2 = rng.choice([f't0/fs:write#{rng.choice([0, 1])}', 't0/s3:GetObject:0#0' if t['size'] > 16 else 't0/s3:GetObject:all#0', 't0/fs:rename#0']), 't0/fs:remove#0'
+        cfg = dict(multipart_threshold=16, multipart_chunksize=8, io_chunksize=4, num_download_attempts=1)
+        cfg.update(gen.small_limits(rng, 3))
+        spec = {'seed': rng.randrange(1 << 30), 'min_part': 8, 'config': cfg, 'transfers': [t], 'family': 'J-cleanup-fails',
+                'plan': {'delay_p': rng.choice([0.0, 0.2])}}
+        if rng.random() < 0.3:
+            spec['plan']['cancel'] = {'at': f1, 'phase': rng.choice(['before', 'after']), 'how': 'future.cancel', 'from': rng.choice(['event', 'main'])}
+            spec['plan']['faults'] = []
+        else:
+            spec['plan']['faults'] = [{'at': f1, 'phase': rng.choice(['before', 'after']), 'kind': 'oserror' if '/fs:' in f1 else 'exc', 'tag': 'FAULT-c04'}]
+        spec['plan']['faults'].append({'at': f2, 'phase': 'before', 'kind': 'oserror' if '/fs:' in f2 else rng.choice(['exc', 'client4xx']),
+                                       'tag': 'FAULT-c04-cleanup'})
+        if rng.random() < 0.3:
+            spec['mode'] = rng.choice(['shutdown_plain', 'shutdown_cancel', 'with_exc'])
+            spec['trigger'] = 'immediate'
+        cases.append(spec)
     # (I) executor / subscriber flavours: everything inline in the submitting thread (NonThreadedExecutor), no subscribers,
     # duck-typed subscribers offering only some callbacks, under small limits, faults and cancels
     for i in range(150 if quick else 1500):
